@@ -3,15 +3,15 @@
 import json, os, re
 root = '/verif/seeded'
 def key(n):
-    m = re.match(r'(C\d+)-(r2|r3|r4|r5|r6)?m(\d+)(p?)', n)
+    m = re.match(r'(C\d+)-(r2|r3|r4|r5|r6|r7)?m(\d+)(p?)', n)
     return (m.group(2) or '', m.group(1), int(m.group(3)))
-rows = {'': [], 'r2': [], 'r3': [], 'r4': [], 'r5': [], 'r6': []}
+rows = {'': [], 'r2': [], 'r3': [], 'r4': [], 'r5': [], 'r6': [], 'r7': []}
 for n in sorted(os.listdir(root), key=key):
     mp = os.path.join(root, n, 'meta.json')
     if not os.path.exists(mp):
         continue
     m = json.load(open(mp))
-    rnd = 'r6' if '-r6' in n else 'r5' if '-r5' in n else 'r4' if '-r4' in n else ('r3' if '-r3' in n else ('r2' if '-r2' in n else ''))
+    rnd = 'r7' if '-r7' in n else 'r6' if '-r6' in n else 'r5' if '-r5' in n else 'r4' if '-r4' in n else ('r3' if '-r3' in n else ('r2' if '-r2' in n else ''))
     if m.get('expected') == 'missed':
         res = '**missed** — ' + m.get('miss_reason', '')
     else:
@@ -19,7 +19,7 @@ for n in sorted(os.listdir(root), key=key):
     if m.get('note'):
         res += ' — ' + m['note']
     rows[rnd].append(f"| {n} | {m.get('needs_to_manifest','')} | {res} |")
-for rnd, title in (('', 'Round 1'), ('r2', 'Round 2'), ('r3', 'Round 3'), ('r4', 'Round 4'), ('r5', 'Round 5'), ('r6', 'Round 6')):
+for rnd, title in (('', 'Round 1'), ('r2', 'Round 2'), ('r3', 'Round 3'), ('r4', 'Round 4'), ('r5', 'Round 5'), ('r6', 'Round 6'), ('r7', 'Round 7')):
     print(f"**{title}**\n")
     print("| seed | needs, in order to manifest | result |\n|---|---|---|")
     print('\n'.join(rows[rnd]))
